@@ -1,10 +1,11 @@
 from common import T_COMMON
 
 CFG = dict(
-    modules=["PolyVerif.Props.C06", "PolyVerif.Props.C06Scene", "PolyVerif.Props.C06Data", "PolyVerif.Props.C06Tables", "PolyVerif.Props.C06Carry", "PolyVerif.Props.C06Valid"],
+    modules=["PolyVerif.Props.C06", "PolyVerif.Props.C06Scene", "PolyVerif.Props.C06Data", "PolyVerif.Props.C06Tables", "PolyVerif.Props.C06Carry", "PolyVerif.Props.C06Valid", "PolyVerif.Props.C06Dedup", "PolyVerif.Props.C06Full"],
     # property theorems (audited); scene_* quantify over EVERY well-formed scene, gltf_* over every admissible write sequence
     theorems=["scene_inv", "scene_valid_low", "gltf_refs_in_range", "scene_refs_ok", "gltf_node_trs",
               "scene_dinv", "gltf_prims_consistent", "scene_prims_ok", "gltf_carries_scene", "gltf_extensions_declared", "scene_nodes_ok", "gltf_scene_valid",
+              "gltf_dedup_consistent", "addMaterial_dedup", "addMesh_dedup", "gltf_scene_full_partial", "exScene_wf",
               "gltf_bytesWritten_eq_len", "gltf_views_tile", "gltf_accessor_fits", "gltf_minmax",
               "gltf_decode_image", "gltf_decode_indices", "gltf_index_width",
               "glb_frame_length", "glb_frame", "glb_frame_bin",
@@ -21,13 +22,14 @@ CFG = dict(
         "float64→float32 narrowing: Lean Float.toFloat32 in the driver vs Go float32(x), compared bit-for-bit through the buffer bytes",
         "colour factors roundFloat(c/65535,3) computed at Float in the model, compared bit-for-bit"],
     residue=[
-        "C06_scene_full (def in Props/C06Scene.lean: for every accepted scene valid ∧ carriesScene ∧ dedupOK of the written document, i.e. the three oracle predicates) is NOT proved as a whole. Proved parts, for EVERY scene: scene_inv + scene_valid_low (refinement: AddScene issues only admissible writes; buffer length, bufferViews inside/disjoint, every accessor reads an existing view with count·elemSize = view length, data inside the buffer, declared min/max = bounds of the stored values), gltf_refs_in_range_partial (primitive → attribute/index accessors and material; node → mesh, instancing accessors, light; scene → nodes; material/mesh/written-mesh trackers in range), gltf_node_trs (name and TRS moved verbatim).",
-        "not theorems (corresponded exactly by c06.doc and oracle-checked by c06.holds.valid/.decode/.dedup on every run): material → texture → image/sampler references in range (the rest of gltf_refs_in_range); per-primitive equal attribute counts and index VALUES < vertex count at scene level (primOK: at write level they follow from gltf_decode_indices + the guard i < attrSize, the scene-level bookkeeping through the attribute map is not proved); extensions in use are declared (gltf_extensions_declared); dedup consistency (gltf_dedup_consistent: same mesh id + material ⇒ same mesh index, equal-by-value materials ⇒ one entry, same index ⇒ equal observable data); instance transforms decode to the model's (carriesScene; at write level gltf_decode_image)",
-        "C06_alignment (full clause) is false of the code: gltf_alignment_counterexample; proved part gltf_alignment_partial (all vectors FLOAT, every index block a multiple of 4 bytes)",
+        "C06_scene_full (def in Props/C06Scene.lean: ∀ s w, writeScene s = .ok w → valid ∧ carriesScene ∧ dedupOK) is proved EXCEPT its third conjunct: gltf_scene_full_partial proves, for every well-formed scene (SceneWF: MeshWF meshes, admissible instances, a written attribute whenever there are indices, pairwise different glTF attribute names per mesh), valid w.doc w.buf (ALL of it: gltf_scene_valid) ∧ carriesScene s w.doc w.buf (ALL of it: gltf_carries_scene) ∧ the table-level dedup invariants MatT ∧ MeshT (gltf_dedup_consistent, with addMaterial_dedup / addMesh_dedup describing each call exactly). MISSING: dedupOK s w.doc = true itself, i.e. (i) matCarried — the material a model's primitive references SHOWS that model's material (factors, colours, each texture reference resolving through textures → images/samplers to the texture's URI, sampler, transform), (ii) the node-level restatement of the two table invariants (same (mesh id, material) ⇔ same node.mesh), (iii) no duplicates in textures/images/samplers, (iv) symmetry/transitivity of PolyformMaterial.equal (so that two models with mutually `equal` materials provably share an index). These stay corresponded exactly (c06.doc) and oracle-checked (c06.holds.dedup) on every run.",
+        "scene theorems need well-formedness hypotheses only where the property itself presupposes them: gltf_refs_in_range, gltf_extensions_declared, gltf_dedup_consistent, gltf_node_trs hold for EVERY accepted scene; scene_valid_low / gltf_prims_consistent / gltf_carries_scene / gltf_scene_valid need SceneOK (+ a written attribute when there are indices; + distinct glTF attribute names for carriesScene)",
+        "carries (Model/GltfSpec): the conjunct `p.attrs.length == m.written.length` was replaced by `every key of p.attrs is the glTF name of a written attribute`; together with `every written attribute is present` this is the same on parsed documents (keys of a JSON object are unique)",
+        "C06_alignment (full clause) is false of the code: gltf_alignment_counterexample; proved part gltf_alignment_partial (all vectors FLOAT, every index block a multiple of 4 bytes) — at write level",
         "glb_frame / glb_frame_bin read every header and chunk word back from the bytes (readWord); the equivalent statement through readFrame/frameOK (what c06.holds.frame evaluates on the implementation) is not proved for the model",
         "VecsOK excludes ±Inf (the writer's MaxFloat64 sentinel survives +Inf) and NaN in FLOAT VEC4 (Go's math.Min/Max would make the bound NaN; the model's order-based fold does not reproduce that): encoding/json refuses such documents (model: marshalOK); NaN in VEC2/VEC3 is modelled (skipped) and covered by gltf_minmax",
-        "byte-typed (Joint) vectors: Go computes min/max on the float64 value v while it stores uint8(v); the model identifies both, i.e. assumes integer values in [0,255] (for other values the declared bounds are not the bounds of the stored bytes — outside the modelled domain, not generated)",
-        "JSON text layout; skins and animations; base64 (std); Float1 attributes (never written by AddMesh); material Extras; lights' payload beyond count/position; topologies other than triangle/point (written without a mode)"],
+        "byte-typed (Joint) vectors: Go computes min/max on the float64 value v while it stores uint8(v); the model identifies both, i.e. assumes integer values in [0,255]",
+        "JSON text layout; skins and animations; base64 (std); Float1 attributes (never written by AddMesh); material Extras; topologies other than triangle/point (written without a mode)"],
     assumptions=["pointer identity of meshes/textures = position in the scene's heap (one immutable object per pointer during a write)",
                  "byte-typed (Joint) attribute values are integers in [0,255]"],
 )
